@@ -265,6 +265,38 @@ func (e *testEnv) monitorC01(ep endpointCase, cr credential, v *respView, real s
 			"endpoint": ep.name, "target": ep.target, "method": method, "credential": cr.kind, "cookie": truncate(cr.cookie, 200),
 			"authorization": truncate(cr.auth, 120), "response": real, "cfg": fmt.Sprintf("%+v", e.cfg)})
 	}
+	// conversely: a valid credential whose identity passes the configured rules is served
+	if cr.valid && !served && (ep.name == "protected" || ep.name == "protected-post" || ep.name == "authonly" || ep.name == "userinfo" || ep.name == "api") {
+		em, groups := cr.user.Email, []string{}
+		if gs, ok := cr.user.Groups.([]interface{}); ok {
+			for _, g := range gs {
+				groups = append(groups, fmt.Sprint(g))
+			}
+		}
+		if cr.kind == "basic" {
+			em, groups = "", o.HtpasswdUserGroups
+		}
+		emailOK := em == "" || len(o.EmailDomains) == 0
+		for _, d := range o.EmailDomains {
+			if d == "*" || strings.HasSuffix(strings.ToLower(em), "@"+strings.ToLower(strings.TrimPrefix(d, "."))) || (strings.HasPrefix(d, ".") && strings.HasSuffix(strings.ToLower(em), strings.ToLower(d))) {
+				emailOK = true
+			}
+		}
+		groupOK := len(e.cfg.AllowedGroups) == 0
+		for _, g := range groups {
+			for _, a := range e.cfg.AllowedGroups {
+				if g == a {
+					groupOK = true
+				}
+			}
+		}
+		if emailOK && groupOK {
+			c.violation("C01", "a request with a valid, authorised credential was not served", map[string]interface{}{
+				"endpoint": ep.name, "credential": cr.kind, "response": real, "cfg": fmt.Sprintf("%+v", e.cfg)})
+		} else {
+			c.count("c01:valid-but-unauthorised")
+		}
+	}
 	if len(v.Hits) > 0 {
 		c.count("c01:forwarded")
 	}
